@@ -203,6 +203,62 @@ def check_spec(ctx, spec):
                        "page_first_rows": sorted(firsts), "is_page_first": r in firsts})
 
 
+def check_multi(ctx, rng, specs):
+    """the same rule section by section in a multi-section document (every section has its own group_by)"""
+    import copy
+    secs, base = [], 0
+    for sp in specs:
+        sp = copy.deepcopy(sp)
+        n = len(sp["df"]["cols"][0]["values"])
+        for c in sp["df"]["cols"]:
+            if c["values"] and isinstance(c["values"][0], str) and E.TAG_DATA.fullmatch(c["values"][0]):
+                j = E.TAG_DATA.fullmatch(c["values"][0]).group(2)
+                c["values"] = [f"d{base + r}c{j}" for r in range(n)]
+        secs.append({"df": sp["df"], "body": {"group_by": sp["body"]["group_by"]}, "colheader": "none",
+                     "_n": n, "_base": base})
+        base += n
+    spec = {"kind": "multi", "sections": secs, "multi_header": "nested", "title": None,
+            "page": {"nrow": rng.choice([3, 4, 6, 9, 40])}}
+    case = strip_meta(spec)
+    for sec in secs:
+        names = [c["name"] for c in sec["df"]["cols"]]
+        keyrows = list(zip(*[sec["df"]["cols"][names.index(g)]["values"] for g in sec["body"]["group_by"]]))
+        if not E.prefix_contiguous(keyrows):
+            return            # refusal of non-contiguous keys is judged on single tables
+    o = H.build_and_encode(spec)
+    if o.stage == "build":
+        ctx.count("rejected_at_construction")
+        return
+    ctx.count("multi_section_docs")
+    ctx.case(case, True)
+    if o.stage == "encode":
+        info = H.exc_info(o.exc)
+        ctx.violation(f"multi-section: contiguous group_by keys raised {info['exc']}: {info['msg'][:80]}", case, info)
+        return
+    doc = R.parse(o.out)
+    got_rows, unk = E.observed_data_rows(doc)
+    rows = {}
+    firsts = set()
+    seen_pages = set()
+    for pi, texts in got_rows:
+        k = next((int(E.TAG_DATA.fullmatch(t).group(1)) for t in texts if E.TAG_DATA.fullmatch(t)), None)
+        rows[k] = texts
+        if pi not in seen_pages:
+            seen_pages.add(pi)
+            firsts.add(k)
+    for sec in secs:
+        n, b = sec["_n"], sec["_base"]
+        sub = {"df": sec["df"], "body": sec["body"]}
+        exp = expected_table(sub, {f - b for f in firsts if b <= f < b + n})
+        got = [rows.get(b + r) for r in range(n)]
+        ctx.count("groupby_cells_checked", n * len(sec["body"]["group_by"]))
+        if got != exp:
+            r = next(i for i in range(n) if got[i] != exp[i])
+            ctx.violation(f"multi-section: group_by rendering of section row {r} differs: expected {exp[r]!r}, got "
+                          f"{got[r]!r}", case, {"row": r, "section_base": b, "page_first_rows": sorted(firsts)})
+            return
+
+
 def random_spec(rng):
     levels = rng.choice([1, 1, 2, 2, 3])
     n = rng.choice([rng.randint(1, 12), rng.randint(8, 60)])
@@ -276,7 +332,20 @@ def run_shard(desc, ctx):
     else:
         for _ in range(desc["n"]):
             check_spec(ctx, random_spec(rng))
+        for _ in range(max(10, desc["n"] // 8)):
+            parts = []
+            while len(parts) < 2:
+                sp = random_spec(rng)
+                if not sp["body"].get("page_by") and not sp["body"].get("subline_by") and \
+                        len(sp["df"]["cols"][0]["values"]) <= 20:
+                    parts.append(sp)
+            check_multi(ctx, rng, parts)
 
 
 def replay(data, ctx):
-    check_spec(ctx, data["case"])
+    if data["case"].get("kind") == "multi":
+        secs = [{"df": s_["df"], "body": s_["body"]} for s_ in data["case"]["sections"]]
+        for k in range(4):
+            check_multi(ctx, random.Random(k), secs)
+    else:
+        check_spec(ctx, data["case"])
